@@ -42,6 +42,10 @@ impl Buildpack for TB {
 #[derive(Serialize, Deserialize, Clone, Debug)]
 struct Typed {
     version: String,
+    /// as buildpack authors write them: an unordered map. The harness never fills it; it is populated only by parsing a layer's
+    /// restored metadata - and a layer that is merely *kept* has to keep the file it was restored with
+    #[serde(default, skip_serializing_if = "HashMap::is_empty")]
+    labels: HashMap<String, String>,
 }
 
 /// A metadata type as buildpacks write them: renamed fields, options, nested structs, enums, maps, datetimes, wide integers.
@@ -247,7 +251,7 @@ impl<MAC, RAC> RefOps for LayerRef<TB, MAC, RAC> {
         self.write_metadata(t)
     }
     fn write_metadata_typed(&self, v: &str) -> libcnb::Result<(), TErr> {
-        self.write_metadata(Typed { version: v.to_string() })
+        self.write_metadata(Typed { version: v.to_string(), labels: HashMap::new() })
     }
     fn write_env(&self, e: &libcnb::layer_env::LayerEnv) -> libcnb::Result<(), TErr> {
         LayerRef::write_env(self, e)
@@ -439,7 +443,7 @@ macro_rules! scripted_layer {
 }
 
 scripted_layer!(LayerV1, V1, |s: &str| V1 { v: s.to_string() });
-scripted_layer!(LayerV2, Typed, |s: &str| Typed { version: s.to_string() });
+scripted_layer!(LayerV2, Typed, |s: &str| Typed { version: s.to_string(), labels: HashMap::new() });
 
 /// A Layer that relies on every default method of the trait.
 struct DefaultsLayer<'a>(Script<'a>);
@@ -531,7 +535,7 @@ pub fn handle(st: &mut State, req: &Value) -> Value {
                             log.borrow_mut().push(json!({"cb": "invalid", "metadata": md_json(m)}));
                             match jstr(invalid, "action") {
                                 "delete" => Ok((InvalidMetadataAction::DeleteLayer, jstr(invalid, "cause").to_string())),
-                                "replace" => Ok((InvalidMetadataAction::ReplaceMetadata(Typed { version: jstr(invalid, "version").to_string() }), jstr(invalid, "cause").to_string())),
+                                "replace" => Ok((InvalidMetadataAction::ReplaceMetadata(Typed { version: jstr(invalid, "version").to_string(), labels: HashMap::new() }), jstr(invalid, "cause").to_string())),
                                 e => Err(TErr(e.to_string())),
                             }
                         },
